@@ -6,7 +6,7 @@ use rand::{Rng, SeedableRng};
 
 pub const K_POOL: &[char] = &['a', 'Z', '0', '_', '~', '!', '/', '.', '+', '@', '(', '[', '<', '$', '=', '|', ',', '"', '\'', '\\', '}'];
 pub const S_POOL: &[char] = &[' ', '\t'];
-pub const U_POOL: &[char] = &['é', '日', '😀', '\u{1}', '\u{7f}', '\u{a0}', '\u{b}', '\u{c}', '\u{2028}', '\u{85}', '\u{0}'];
+pub const U_POOL: &[char] = &['é', '日', '😀', '\u{1}', '\u{7f}', '\u{a0}', '\u{b}', '\u{c}', '\u{2028}', '\u{85}', '\u{0}', '\u{feff}', '\u{3000}', '\u{200b}', '\u{fffd}'];
 
 pub fn class_char(class: &str, map: usize, rng: &mut StdRng) -> char {
     match (class, map) {
